@@ -170,6 +170,37 @@ def o_xor_ctx(src, klen, dlen, keys):
     return None
 
 
+@C.oracle('unit_transform')
+def o_unit_transform(src, unit, datas):
+    """Restreamed / Transformed with a byte-order swap declared over units of several bytes around a read-to-end construct: the wire
+    bytes are the payload with every unit reversed, however many units there are, and parse gives the payload back"""
+    c = C.get(src)
+    for d in datas:
+        want = b''.join(d[i:i + unit][::-1] for i in range(0, len(d), unit))
+        b = res(lambda: c.build(d))
+        if b != ('ok', want):
+            return 'build(%r) gives %r, every %d-byte unit reversed is %r' % (d, b, unit, want)
+        p = res(lambda: c.parse(want))
+        if p[0] != 'ok' or bytes(p[1]) != d:
+            return 'parse(%r) gives %r, expected %r' % (want, p, d)
+    return None
+
+
+@C.oracle('byteswapped_int')
+def o_byteswapped_int(src, n, signed, swapped, values):
+    """ByteSwapped(BytesInteger(n, signed, swapped)) is BytesInteger(n, signed, not swapped): same bytes, same values, same rejections"""
+    a, b = C.get(src), construct.BytesInteger(n, signed=signed, swapped=not swapped)
+    for v in values:
+        x, y = res(lambda: a.build(v)), res(lambda: b.build(v))
+        if x != y:
+            return 'build(%r): %r, the other byte order written out gives %r' % (v, x, y)
+        if x[0] == 'ok':
+            p, q = res(lambda: a.parse(x[1])), res(lambda: b.parse(x[1]))
+            if p != q:
+                return 'parse(%r): %r, the other byte order written out gives %r' % (x[1], p, q)
+    return None
+
+
 SWAPPED_MEMBERS = [
     ('Struct("s"/BitsSwapped(PascalString(Byte, "ascii")), "t"/Int16ub)', 'Struct("s"/PascalString(Byte, "ascii"), "t"/Int16ub)', dict(s='hey', t=513), 0, 4),
     ('Sequence(BitsSwapped(VarInt), GreedyBytes)', 'Sequence(VarInt, GreedyBytes)', [300, b'rest'], 0, 2),
@@ -197,6 +228,30 @@ def run(tier, seed):
             cases.append(dict(src=src, op='build', obj=d))
     cases.append(dict(src='Struct("k"/Byte, "d"/ProcessXor(this.k, GreedyBytes))', op='parse', data=b'\x5a\x01\x02\x03'))
     cases.append(dict(src='Struct("k"/Bytes(2), "d"/ProcessXor(this.k, Int32ub))', op='parse', data=b'\x5a\xa5\x01\x02\x03\x04'))
+    for unit in (2, 3, 4):
+        for tmpl in ('Restreamed(GreedyBytes, swapbytes, %d, swapbytes, %d, lambda n: n)', 'Struct("h"/Byte, "r"/Restreamed(GreedyBytes, swapbytes, %d, swapbytes, %d, lambda n: n))'):
+            src = tmpl % (unit, unit)
+            ds = [G.rand_bytes(rng, unit * k) for k in (0, 1, 2, 3, 5)]
+            if src.startswith('Struct'):
+                for d in ds:
+                    cases.append(dict(src=src, op='build', obj=dict(h=1, r=d)))
+                    cases.append(dict(src=src, op='parse', data=b'\x01' + d))
+            else:
+                acc.check('unit_transform', src, unit=unit, datas=ds)
+                for d in ds:
+                    cases.append(dict(src=src, op='build', obj=d))
+                    cases.append(dict(src=src, op='parse', data=d))
+    for n in (2, 3, 4, 8):
+        for sg in (False, True):
+            for sw in (False, True):
+                lo, hi = G.rng_range(sg, n)
+                vals = sorted(set([lo, hi, -1, -2, 0, 1, lo + 1, hi - 1, hi + 1, lo - 1, 0x0102030405060708 % (hi + 1)] + [G.edge_int(rng, lo, hi) for _ in range(6)]))
+                src = 'ByteSwapped(BytesInteger(%d, signed=%s, swapped=%s))' % (n, sg, sw)
+                acc.check('byteswapped_int', src, n=n, signed=sg, swapped=sw, values=vals)
+                for v in vals[:8]:
+                    cases.append(dict(src=src, op='build', obj=v))
+    for nm in ('Int24sb', 'Int24sl', 'Int24ub', 'Int24ul'):
+        acc.check('byteswapped_int', 'ByteSwapped(%s)' % nm, n=3, signed=nm[5] == 's', swapped=nm[6] == 'l', values=[-2, -1, 0, 1, 2 ** 23 - 1, -2 ** 23, 2 ** 24 - 2, 66051])
     amounts = list(range(-64, 65)) if tier == 'thorough' else list(range(-17, 18)) + [-64, -63, -33, -32, -24, 24, 31, 32, 33, 40, 63, 64]
     for g in range(1, 9):
         gd = [G.rand_bytes(rng, g * m) for m in (0, 1, 2, 3)] + [bytes(range(1, g * 2 + 1)), G.rand_bytes(rng, g * 2 + 1), G.rand_bytes(rng, max(1, g - 1))]
